@@ -8,7 +8,7 @@ from lib.engine import R, V, enum_part, hyp_part
 ID = 'C12'
 RULE = ('every registered (model, culture) pair applied to: (1) every Python-supported Specs input of the culture (all models of the culture; 25% '
         'sample in the quick tier); (2) single generated expressions (families of C03-C10, C13, C20) alone and in carriers; (3) sentences of 2-4 '
-        'generated expressions of different families joined by punctuation-led filler separators; (4) deterministic chains of 2-3 amounts with the same unit separated by blanks only; oracle: sort the entities of ONE parse call by '
+        'generated expressions of different families joined by punctuation-led filler separators; (4) deterministic chains of 2-3 amounts with the same unit separated by blanks only, and dates whose last token can also start a clock time (may 5 pm); oracle: sort the entities of ONE parse call by '
         'start, neighbours must satisfy next.start > previous.end; non-trivial = some model returned >= 2 entities for the query; '
         'distinct = (culture, query)')
 ASSUMPTIONS = ['separators are a static list without date, time, number or connector words']
@@ -141,11 +141,27 @@ def unit_chains(per_type):
     return gen
 
 
+def date_time_adjacency():
+    """Deterministic part: a date whose last token can also start a clock time ('may 5 pm', 'back on oct 2 pm', '3 May 5pm'):
+    candidates of two sub-extractors that share one token must be resolved to disjoint entities."""
+    from gens import dt as G
+    names = [m.lower() for m in G.MONTHS['en']] + [m.lower() for m in G.EN_ABBR]
+    i = 0
+    for name in sorted(set(names)):
+        for d in range(1, 32):
+            for mk in ('am', 'pm'):
+                i += 1
+                pre = ['', 'back on ', 'until ', 'the meeting is '][i % 4]
+                yield {'culture': 'en-us', 'q': '%s%s %d %s' % (pre, name, d, mk), 'src': 'adjacency', 'only': ['datetime']}
+                if d <= 12 and i % 3 == 0:
+                    yield {'culture': 'en-us', 'q': '%s%d %s %d%s' % (pre, (d * 7) % 28 + 1, name, d, mk), 'src': 'adjacency', 'only': ['datetime']}
+
+
 def run_chain(case):
     culture, q = case['culture'], case['q']
     results = allmodels.run_all(culture, q, only=case['only'])
     vs, multi = overlap_violations(culture, q, results)
-    return R(vs, nontrivial=multi, labels=['src:unit-chain', 'culture:' + culture, 'type:' + case['only'][0]] + (['multi-entity'] if multi else []),
+    return R(vs, nontrivial=multi, labels=['src:' + case['src'], 'culture:' + culture, 'type:' + case['only'][0]] + (['multi-entity'] if multi else []),
              obs={'query': q, 'entities': {k: v for k, v in results.items() if v}}, key=[culture, q], evals=len(results))
 
 
@@ -159,6 +175,7 @@ def parts(tier, seed):
     q = tier == 'quick'
     ps = [enum_part('corpus-all-models', c01.corpus_cases(0.25 if q else 1, seed, salt=13), run_query, exhaustive=not q, weight=3)]
     ps.append(enum_part('unit-chains', unit_chains(12 if q else 60), run_chain, exhaustive=True))
+    ps.append(enum_part('date-time-adjacency', date_time_adjacency, run_chain, exhaustive=True))
     for c in allmodels.CULTURES:
         n1 = (800 if c == 'en-us' else 200) if q else (10000 if c == 'en-us' else 2500)
         n2 = (1200 if c == 'en-us' else 300) if q else (30000 if c == 'en-us' else 5500)
